@@ -347,18 +347,30 @@ inline Config genConfig(const Profile &pf) {
       if (pick(15)) a.hidden = true;
       if (!a.mandatory && pick(12)) { a.deprecated = true; if (pick(50)) a.replacedBy = "--something-else"; }
     }
-  // argument constraints: disjoint pairs (source, target), each argument in at most one relation
+  // argument constraints (requires / excludes). Targets may be shared between several constraining arguments and an
+  // argument may be source and target; 'requires' edges only go from a lower to a higher argument index (no cycles).
+  // Arguments that take part are not available for handler constraints (inRelation).
   std::set<int> inRelation;
   auto freeArgs = [&]() { std::vector<int> v; for (size_t i = 0; i < c.args.size(); ++i) if (!inRelation.count(static_cast<int>(i)) && !c.args[i].deprecated && !c.args[i].mandatory) v.push_back(static_cast<int>(i)); return v; };
   if (pf.argConstraints) {
-    int tries = *range<int>(0, 2);
-    for (int t = 0; t < tries; ++t) {
-      auto fa = freeArgs();
-      if (fa.size() < 2) break;
-      int x = oneOf(fa);
-      int y = oneOf(fa);
+    int tries = *range<int>(0, 4);
+    std::vector<int> cand;
+    for (size_t i = 0; i < c.args.size(); ++i) if (!c.args[i].deprecated && !c.args[i].mandatory) cand.push_back(static_cast<int>(i));
+    for (int t = 0; t < tries && cand.size() >= 2; ++t) {
+      int x = oneOf(cand);
+      // prefer a target that is already in a relation: shared targets are where the bookkeeping gets interesting
+      std::vector<int> targets;
+      if (!inRelation.empty() && pick(50)) for (int r : inRelation) if (std::find(cand.begin(), cand.end(), r) != cand.end()) targets.push_back(r);
+      if (targets.empty()) targets = cand;
+      int y = oneOf(targets);
       if (x == y) continue;
-      c.args[x].constraints.push_back({pick(50) ? CT_REQUIRES : CT_EXCLUDES, y});
+      int type = pick(50) ? CT_REQUIRES : CT_EXCLUDES;
+      if (type == CT_REQUIRES && x > y) std::swap(x, y);
+      bool dup = false;
+      for (auto &ct : c.args[x].constraints) if (ct.second == y) dup = true;   // one constraint per ordered pair
+      for (auto &ct : c.args[y].constraints) if (ct.second == x && (ct.first == CT_REQUIRES || type == CT_REQUIRES)) dup = true;
+      if (dup) continue;
+      c.args[x].constraints.push_back({type, y});
       inRelation.insert(x); inRelation.insert(y);
     }
   }
@@ -480,29 +492,43 @@ inline Line genValidLine(const Config &c, const Profile &pf, int maxUses = 6) {
       for (int i : hc.args) used[i] = (i == keep);
     }
   }
-  // argument constraints
+  // argument constraints: closure over 'requires', then thin out excluded targets
+  for (bool changed = true; changed;) {
+    changed = false;
+    for (size_t i = 0; i < n; ++i)
+      for (auto &ct : c.args[i].constraints)
+        if (used[i] && ct.first == CT_REQUIRES && !used[ct.second]) { used[ct.second] = true; changed = true; }
+  }
+  auto isRequired = [&](int y) { for (size_t i = 0; i < n; ++i) if (used[i]) for (auto &ct : c.args[i].constraints) if (ct.first == CT_REQUIRES && ct.second == y) return true; return false; };
   for (size_t i = 0; i < n; ++i)
-    for (auto &ct : c.args[i].constraints) {
-      if (!used[i]) continue;
-      if (ct.first == CT_REQUIRES) used[ct.second] = true;
-    }
+    for (auto &ct : c.args[i].constraints)
+      if (ct.first == CT_EXCLUDES && used[i] && used[ct.second] && !c.args[ct.second].mandatory && !isRequired(ct.second) && pick(50)) used[ct.second] = false;
   if (std::find(used.begin(), used.end(), true) == used.end()) {
     std::vector<int> cand;
-    for (size_t i = 0; i < n; ++i) if (!c.args[i].deprecated) { bool inHc = false; for (auto &hc : c.hcs) if (hc.type != HC_DIFFER && hc.type != HC_DISJOINT && std::find(hc.args.begin(), hc.args.end(), static_cast<int>(i)) != hc.args.end()) inHc = true; if (!inHc) cand.push_back(static_cast<int>(i)); }
-    if (!cand.empty()) { int x = oneOf(cand); used[x] = true; for (auto &ct : c.args[x].constraints) if (ct.first == CT_REQUIRES) used[ct.second] = true; }
+    for (size_t i = 0; i < n; ++i) if (!c.args[i].deprecated) { bool inHc = false; for (auto &hc : c.hcs) if (hc.type != HC_DIFFER && hc.type != HC_DISJOINT && std::find(hc.args.begin(), hc.args.end(), static_cast<int>(i)) != hc.args.end()) inHc = true; if (!inHc && c.args[i].constraints.empty()) cand.push_back(static_cast<int>(i)); }
+    if (!cand.empty()) used[oneOf(cand)] = true;
   }
-  // order of argument blocks
+  // order of argument blocks: random topological order of the "must come before" relation
+  //   requires a->c : a (all its uses) before c;   excludes b->c, both used : c before b
   std::vector<int> order;
-  for (size_t i = 0; i < n; ++i) if (used[i]) order.push_back(static_cast<int>(i));
-  for (size_t i = order.size(); i > 1; --i) std::swap(order[i - 1], order[*range<size_t>(0, i - 1)]);
-  auto posOf = [&](int a) { return std::find(order.begin(), order.end(), a) - order.begin(); };
-  for (size_t i = 0; i < n; ++i)
-    for (auto &ct : c.args[i].constraints) {
-      if (!used[i] || !used[ct.second]) continue;
-      long pi = posOf(static_cast<int>(i)), pj = posOf(ct.second);
-      // requires: requiring argument first; excludes: the excluded one must come before its excluder
-      if ((ct.first == CT_REQUIRES && pi > pj) || (ct.first == CT_EXCLUDES && pi < pj)) std::swap(order[pi], order[pj]);
+  {
+    std::vector<int> nodes;
+    for (size_t i = 0; i < n; ++i) if (used[i]) nodes.push_back(static_cast<int>(i));
+    std::set<std::pair<int, int>> before;
+    for (size_t i = 0; i < n; ++i)
+      for (auto &ct : c.args[i].constraints) {
+        if (!used[i] || !used[ct.second]) continue;
+        if (ct.first == CT_REQUIRES) before.insert({static_cast<int>(i), ct.second}); else before.insert({ct.second, static_cast<int>(i)});
+      }
+    while (!nodes.empty()) {
+      std::vector<int> ready;
+      for (int x : nodes) { bool blocked = false; for (auto &e : before) if (e.second == x && std::find(nodes.begin(), nodes.end(), e.first) != nodes.end()) blocked = true; if (!blocked) ready.push_back(x); }
+      if (ready.empty()) ready = nodes;   // contradictory constraints: the model will reject the line, the case is discarded
+      int x = oneOf(ready);
+      order.push_back(x);
+      nodes.erase(std::find(nodes.begin(), nodes.end(), x));
     }
+  }
   // uses per argument
   std::map<int, int> differSalt, disjointSalt;
   for (auto &hc : c.hcs) {
